@@ -1,0 +1,28 @@
+//go:build verif
+
+package cmd
+
+// verif hook H4: exports the agents' unexported task factories so that a
+// deterministic simulator can register them on simulated agents. Only compiled
+// with -tags verif.
+
+import (
+	"time"
+
+	"github.com/bbva/qed/gossip"
+	"github.com/bbva/qed/log"
+)
+
+// SimAuditorFactory returns the auditor's membership task factory.
+func SimAuditorFactory(l log.Logger) gossip.TaskFactory { return membershipFactory{l} }
+
+// SimMonitorFactory returns the monitor's incremental task factory.
+func SimMonitorFactory(l log.Logger) gossip.TaskFactory { return incrementalFactory{l} }
+
+// SimMonitorLagFactory returns the monitor's lag task factory (not started).
+func SimMonitorLagFactory(t time.Duration, l log.Logger) gossip.TaskFactory {
+	return newLagFactory(t, l)
+}
+
+// SimPublisherFactory returns the publisher's task factory.
+func SimPublisherFactory(l log.Logger) gossip.TaskFactory { return publisherFactory{l} }
